@@ -14,7 +14,7 @@ def _res(plural, namespaced=True):
                                verbs=frozenset({'list', 'watch', 'patch'}))
 
 
-@harness('O2w', targets='kopf._core.reactor.orchestration.spawn_missing_watchers', props=['C17', 'C19'],
+@harness('O2w', targets='kopf._core.reactor.orchestration.spawn_missing_watchers', props=['C17', 'C19', 'C01', 'C03', 'C05', 'C07', 'C08', 'C09', 'C13', 'C14', 'C15', 'C20'],
          clauses=['one_watcher_per_missing_pair', 'existing_watchers_untouched', 'own_gate_per_indexed_watcher',
                   'no_gate_for_unindexed_kind', 'global_blocker_spans_the_spawning', 'watcher_arguments'],
          canaries=['canary.never_spawns', 'canary.always_gated'],
@@ -140,7 +140,7 @@ def O2w(vc):
 @harness('O2t', targets=['kopf._core.reactor.orchestration.terminate_redundancies', 'kopf._core.reactor.orchestration.Ensemble.get_keys',
                          'kopf._core.reactor.orchestration.Ensemble.get_tasks', 'kopf._core.reactor.orchestration.Ensemble.get_flags',
                          'kopf._core.reactor.orchestration.Ensemble.del_keys'],
-         props=['C20', 'C19', 'C13'],
+         props=['C20', 'C19', 'C13', 'C01', 'C07', 'C09', 'C17'],
          clauses=['live_tasks_stay_owned', 'stops_exactly_the_redundant', 'drops_exactly_their_flags', 'forgets_exactly_the_redundant',
                   'stopped_before_forgotten'],
          canaries=['canary.nothing_redundant'],
@@ -220,3 +220,81 @@ def O2t(vc):
     vc.ensure('stopped_before_forgotten', all(t.ended for k, t in all_tasks if k in redundant))
     vc.canary('canary.nothing_redundant', not redundant)
     return ('done', len(redundant), len(want_tasks))
+
+
+# ----------------------------------------------------------------------------------------------- O3w (bounded, native)
+from pyvc.bounded import bounded
+
+
+@bounded('O3w', targets=['kopf._core.reactor.orchestration.orchestrator', 'kopf._core.reactor.orchestration.spawn_missing_watchers'],
+         props=['C20', 'C19', 'C03', 'C08', 'C13', 'C14', 'C15', 'C17'],
+         clauses=['dead_watcher_stops_the_operator', 'healthy_watchers_keep_it_running'],
+         universe='the real orchestrator + adjust_tasks + spawn_missing_watchers on a real event loop, queueing.watcher replaced by a watcher that '
+                  'ends after 50 ms in one of 4 ways (RuntimeError as after a failed worker, an arbitrary Exception as a WatchingError of the '
+                  'stream, a plain return, running on) x 2 shapes (namespaced kind in one namespace, cluster-scoped kind); observed for 0.5 s')
+def O3w(b):
+    """
+    C20 "When any essential task fails -- including a watch stream or an object worker failing unrecoverably -- ... the whole operator
+    shuts down rather than lingering half-alive" (and C19: no served pair is left without a watch silently):
+      dead_watcher_stops_the_operator   when a spawned watcher task ends with an error, the orchestrator -- the root task that owns it --
+                                        ends too (with an error) within the observation time, so that run_tasks stops the operator;
+                                        [KNOWN FINDING F-C20-1: nobody awaits or monitors the guarded watcher tasks: the failure is only logged]
+      healthy_watchers_keep_it_running  while the watchers run, the orchestrator runs.
+    Bounded stand-in (labelled B): a native run on the real event loop -- the escalation path crosses asyncio's task machinery.
+    """
+    import asyncio, logging
+    from kopf._cogs.aiokits import aiotoggles
+    from kopf._cogs.configs import configuration
+    from kopf._cogs.structs import references
+    from kopf._core.reactor import orchestration, queueing
+
+    async def scenario(how, namespaced):
+        settings = configuration.OperatorSettings()
+        insights = references.Insights()
+        res = _res('things', namespaced=namespaced)
+        ended = asyncio.Event()
+
+        async def watcher(**kwargs):
+            await asyncio.sleep(0.05)
+            ended.set()
+            if how == 'RuntimeError':
+                raise RuntimeError('Event processing has failed with an unrecoverable error. The operator will stop to prevent damage.')
+            if how == 'Exception':
+                raise Exception('the watch stream has failed')
+            if how == 'runs on':
+                await asyncio.Event().wait()
+        orig, queueing.watcher = queueing.watcher, watcher
+        prev = logging.root.manager.disable
+        logging.disable(logging.CRITICAL)
+        try:
+            async def processor(**_):
+                return None
+            root = asyncio.create_task(orchestration.orchestrator(settings=settings, insights=insights, identity='me',
+                                                                  operator_paused=aiotoggles.ToggleSet(any), processor=processor))
+            await asyncio.sleep(0)
+            async with insights.revised:
+                insights.watched_resources.add(res)
+                insights.namespaces.add('ns1' if namespaced else None)
+                insights.revised.notify_all()
+            await asyncio.wait_for(ended.wait(), timeout=5)
+            await asyncio.sleep(0.5)
+            alive = not root.done()
+            root.cancel()
+            try:
+                await root
+            except BaseException:
+                pass
+            return alive
+        finally:
+            queueing.watcher = orig
+            logging.disable(prev)
+
+    for how in ('RuntimeError', 'Exception', 'returns', 'runs on'):
+        for namespaced in (True, False):
+            b.case(key=(how, namespaced))
+            alive = asyncio.run(scenario(how, namespaced))
+            w = lambda: dict(watcher=how, namespaced=namespaced, orchestrator_still_running_after_half_a_second=alive)
+            if how in ('RuntimeError', 'Exception'):
+                b.check('dead_watcher_stops_the_operator', not alive, w, excuse='F-C20-1')
+            elif how == 'runs on':
+                b.check('healthy_watchers_keep_it_running', alive, w)
